@@ -1564,7 +1564,7 @@ func consRun(args []string) int {
 	if *summ != "" {
 		writeJSONFile(*summ, map[string]any{
 			"blocks": d.height, "events": d.nEvents, "sweep_inputs": d.sweepInputs, "diverged": d.diverged, "panics": d.panics, "rejects": d.rejects, "paths": d.paths,
-			"tx_kinds": d.txKinds, "error": runErr, "replicas": len(d.reps), "concurrent_calls": func() int {
+			"tx_kinds": d.txKinds, "runtime_messages_in_commitments": d.net.statRtMsgs, "error": runErr, "replicas": len(d.reps), "concurrent_calls": func() int {
 				n := 0
 				for _, r := range d.reps {
 					n += r.bgCalls
